@@ -42,7 +42,7 @@ class TSInterpolator(_PanelToPanelTransformer):
         -------
         numpy.array : with user defined size
         """
-        f = interpolate.interp1d(list(np.linspace(0, 1, len(cell))), cell.to_numpy())
+        f = interpolate.interp1d(list(np.linspace(0, 1, len(cell))), np.asarray(cell))
         return f(np.linspace(0, 1, self.length))
 
     def _resize_col(self, coll):
